@@ -9,7 +9,6 @@ import (
 	"errors"
 	"fmt"
 	"math/big"
-	"sort"
 	"sync"
 	"time"
 
@@ -128,16 +127,9 @@ var errSimChain = errors.New("simulated chain RPC failure")
 func cnrInfoItem(cnr container.Container) stackitem.Item {
 	ver := cnr.Version()
 	owner := cnr.Owner()
-	var ks []string
-	m := map[string]string{}
-	for k, v := range cnr.Attributes() {
-		ks = append(ks, k)
-		m[k] = v
-	}
-	sort.Strings(ks)
-	var attrs []*containerrpc.ContainerAttribute
-	for _, k := range ks {
-		attrs = append(attrs, &containerrpc.ContainerAttribute{Key: k, Value: m[k]})
+	attrs := []*containerrpc.ContainerAttribute{} // the contract returns an empty array, never null
+	for k, v := range cnr.Attributes() {          // stored order (an ordered sequence, not a map)
+		attrs = append(attrs, &containerrpc.ContainerAttribute{Key: k, Value: v})
 	}
 	ci := &containerrpc.ContainerInfo{
 		Version:       &containerrpc.ContainerAPIVersion{Major: big.NewInt(int64(ver.Major())), Minor: big.NewInt(int64(ver.Minor()))},
@@ -210,6 +202,9 @@ func (c *cnrChain) runContained(tx *transaction.Transaction, _ *block.Header) (*
 	c.mu.Unlock()
 	if c.failScript {
 		return nil, errSimChain
+	}
+	if len(tx.Script) == 0 {
+		return nil, errors.New("transaction script is empty")
 	}
 	v := vm.New()
 	v.SetGasLimit(1_0000_0000)
